@@ -322,3 +322,106 @@ def gen_system(rng, i, thorough=False, shrink=1):
                 nbins=int(np.prod(bin_grid(v, o, cutoff)[1].astype(float))))
     return dict(vects=v, origin=o, pbc=tuple(bool(x) for x in pbc), pos=pos, cutoff=float(cutoff),
                 sizes=st['sizes'], exact=exact, meta=meta)
+
+
+# ================================================================ call histories (round 4)
+# One case = a chain of builds whose results are all kept and judged again after every later build,
+# copy, dump and load.  Step kinds, entry points, storage class and density class are functions of the
+# case index; only the numbers come from the rng.
+HSTEPS = ['moved-inplace', 'pos-reassigned', 'perturbed-inplace', 'pbc-changed-inplace', 'other-system-same-cell',
+          'other-cell-same-natoms', 'cutoff-changed', 'repeat-equal', 'box-rescaled-inplace', 'one-atom-fewer',
+          'one-atom-more', 'default-sizes']
+HHOWS = ['NeighborList', 'System.neighborlist', 'nlist', 'nlist-positional', 'rebuild']
+HSIZES = ['defaults', 'roomy', 'tight']
+HTARGETS = ['sparse', 'mid', 'dense']
+HAUX = ['deepcopy', 'pickle', 'copy', 'load:path', 'load:content', 'load:stream', 'load:pathlib',
+        'load:System.neighborlist', 'none']
+HTIGHT = [(1, 1), (1, 3), (2, 1), (5, 7)]
+HLEN = 4                                     # builds per chain (A, B, C, D)
+
+
+def history_stratum(i):
+    K = len(HSTEPS)
+    steps = [HSTEPS[i % K], HSTEPS[(5 * i + i // K + 1) % K], HSTEPS[(7 * i + 3 * (i // K) + 2) % K]]
+    hows = [HHOWS[(i + 2 * k) % len(HHOWS)] for k in range(HLEN)]
+    kind, origin, scale = cells.stratified(i)
+    tiny = i % 7 == 6
+    return dict(steps=steps, hows=hows, sizes_class=HSIZES[(i // K) % 3], target=HTARGETS[(i // (3 * K)) % 3],
+                kind=kind, origin=origin, scale=scale, pbc=cells.PBCS[(i // 5) % 8], tiny=tiny,
+                natoms_tiny=1 + (i // 7) % 3, aux=HAUX[(i // 5) % len(HAUX)], scribble=(i // K) % 2 == 0)
+
+
+def _hist_cutoff(rng, cell, n, target, tiny):
+    v, o = cell['vects'], cell['origin']
+    w = G.perp_widths(v)
+    if tiny:
+        c = rng.uniform(0.3, 1.3) * w.min()
+    else:
+        t = {'sparse': rng.uniform(0.4, 1.5), 'mid': rng.uniform(3, 8), 'dense': rng.uniform(12, 26)}[target]
+        c = (3 * t * abs(G.volume(v)) / (4 * np.pi * n)) ** (1 / 3)
+        c = min(c, 1.4 * w.max())
+    return float(cap_cutoff(v, o, c))
+
+
+def gen_history(rng, i):
+    """Returns dict(meta, sizes, frames): frames[k] = dict(step, how, vects, origin, pbc, pos, cutoff, default_sizes).
+    frames[0] is the first system; frames[k] says what the k-th build is made on and how it derives from k-1.
+    All atoms are strictly inside the cell (relative coordinates in (0.001, 0.999))."""
+    st = history_stratum(i)
+    cell = cells.gen_cell(rng, st['kind'], st['origin'], st['scale'])
+    n = st['natoms_tiny'] if st['tiny'] else int(rng.integers(6, 61))
+    rel = rng.uniform(0.001, 0.999, (n, 3))
+    cutoff = _hist_cutoff(rng, cell, n, st['target'], st['tiny'])
+    if st['sizes_class'] == 'defaults':
+        sizes = None
+    elif st['sizes_class'] == 'roomy':
+        sizes = (int(rng.integers(27, 40)), int(rng.integers(1, 12)))
+    else:
+        sizes = HTIGHT[(i // (3 * len(HSTEPS))) % len(HTIGHT)]
+    cur = dict(vects=np.array(cell['vects']), origin=np.array(cell['origin']), pbc=tuple(bool(x) for x in st['pbc']),
+               pos=_cart(rel, cell), cutoff=cutoff)
+    frames = [dict(cur, step='first', how=st['hows'][0], default_sizes=False)]
+    for k, step in enumerate(st['steps'], start=1):
+        c = dict(vects=cur['vects'], origin=cur['origin'])
+        new = dict(cur)
+        nn = len(cur['pos'])
+        if step == 'one-atom-fewer' and nn < 2:
+            step = 'one-atom-more'
+        if step in ('moved-inplace', 'pos-reassigned', 'other-system-same-cell', 'default-sizes'):
+            new['pos'] = _cart(rng.uniform(0.001, 0.999, (nn, 3)), c)
+        elif step == 'perturbed-inplace':
+            moved = cur['pos'] + _unit(rng, nn) * (cur['cutoff'] * rng.uniform(0.0, 0.3, (nn, 1)))
+            r = np.clip(_wrap_rel(_rel(moved, c)), 0.001, 0.999)
+            new['pos'] = _cart(r, c)
+        elif step == 'pbc-changed-inplace':
+            idx = cells.PBCS.index(tuple(cur['pbc']))
+            new['pbc'] = cells.PBCS[(idx + 1 + int(rng.integers(0, 7))) % 8]
+        elif step == 'other-cell-same-natoms':
+            kind2 = cells.KINDS[(cells.KINDS.index(st['kind']) + 1 + int(rng.integers(0, 8))) % len(cells.KINDS)]
+            cell2 = cells.gen_cell(rng, kind2, st['origin'], st['scale'])
+            r = _rel(cur['pos'], c)
+            new['vects'], new['origin'] = np.array(cell2['vects']), np.array(cell2['origin'])
+            new['pos'] = _cart(np.clip(r, 0.001, 0.999), cell2)
+            f = (abs(G.volume(cell2['vects'])) / abs(G.volume(cur['vects']))) ** (1 / 3)
+            new['cutoff'] = float(cap_cutoff(new['vects'], new['origin'], cur['cutoff'] * f))
+        elif step == 'cutoff-changed':
+            f = rng.uniform(0.6, 0.95) if rng.random() < 0.5 else rng.uniform(1.05, 1.4)
+            new['cutoff'] = float(cap_cutoff(cur['vects'], cur['origin'], cur['cutoff'] * f))
+        elif step == 'repeat-equal':
+            pass
+        elif step == 'box-rescaled-inplace':
+            s = rng.uniform(0.8, 1.25, 3)
+            r = _rel(cur['pos'], c)
+            new['vects'] = cur['vects'] * s[:, None]
+            new['pos'] = _cart(r, dict(vects=new['vects'], origin=cur['origin']))     # what scale=True is documented to do
+            new['cutoff'] = float(cap_cutoff(new['vects'], new['origin'], cur['cutoff']))
+        elif step == 'one-atom-fewer':
+            new['pos'] = np.array(cur['pos'][:-1])
+        elif step == 'one-atom-more':
+            new['pos'] = np.vstack([cur['pos'], _cart(rng.uniform(0.001, 0.999, (1, 3)), c)])
+        else:
+            raise ValueError(step)
+        new['pos'] = np.ascontiguousarray(new['pos'], float)
+        frames.append(dict(new, step=step, how=st['hows'][k], default_sizes=(step == 'default-sizes')))
+        cur = new
+    return dict(meta=st, sizes=sizes, frames=frames)
